@@ -2,6 +2,7 @@ import TracklibVerif.Model.Graph
 import TracklibVerif.Model.GraphPathExt
 import TracklibVerif.Model.GraphMut
 import TracklibVerif.Model.GraphAStarPath
+import TracklibVerif.Model.GraphSharedPath
 import TracklibVerif.Drv.Util
 import TracklibVerif.Drv.C06
 /-! Driver handler for C07 (shortest path reconstruction), weights in `Rat` (or `Float`, commands prefixed with `f`), points on the integer lattice.
@@ -50,6 +51,16 @@ tag; the reply gives the coordinates of the observations of the returned track.
         `M:<mode>`   setRoutingMethod(mode)    → `ok`
         `A:<w>`      setAStarWeight(w)         → `ok`
      (exact stream: refused when a distance between two nodes is not rational)
+  fampaths <n> <edges> <pos> <lines> <af> <ops>
+     a PROGRAM over a family of networks that share their Node / Edge objects (`Model/GraphShared.lean`,
+     `Model/GraphSharedPath.lean`: one common flag store, `__resetFlags` over a network's own nodes only). `<edges>` / `<pos>` /
+     `<lines>`: every Edge object of the program with its geometry, the coordinates of the Node objects (as for `session`).
+     `<ops>` = `;`-separated `<k>:<op>`, `<k>` the network addressed:
+        `c`  Network() (becomes the next network) · `n,<v>` addNode · `e,<id>,<s>,<t>,<w>,<o>` addEdge ·
+        `r,<s>,<t|_>,<cut>,<d>` run_routing_forward · `d,<s>,<t>,<cut>,<d>` / `l,<s>,<cut>,<d>` shortest_distance ·
+        `x,<s>,<cut>` nets.append(nets[k].sub_network(s, cut)) → `s:<node ids>/<edge ids>` ·
+        `W,<id>,<w>` the weight of that Edge object · `P,<s>,<t>,<cut>` shortest_path → `<path>@<label>`
+     → the outputs joined by `|` (`ok`, `err`, or as above)
   fpaths / fsession / fmsession / fasession: the same with weights, cut-offs and labels as IEEE-754 bit patterns (model instantiated at `Float`) -/
 namespace TV.Drv.C07
 open TV.Graph TV.GraphExt TV.Drv
@@ -333,10 +344,74 @@ def handleA (args : List String) : String :=
   | _ => "bad-request"
 end astar
 
+/-! ### `fampaths`: a program over networks that share their `Node` / `Edge` objects -/
+section fam
+open TV.Graph
+
+def showFamPOut (sc : Scene) : GraphExt.FamPOut Rat → String
+  | .out (.subnet ns es) => "s:" ++ joinWith "," (ns.map toString) ++ "/" ++ joinWith "," (es.map toString)
+  | .out .err => "err"
+  | .out _ => "ok"
+  | .path b l => showBackT sc b ++ "@" ++ showLabel showRat l
+  | .err => "err"
+
+def famPRun (sc : Scene) (F : Fam Rat) : List String → Option (List String)
+  | [] => some []
+  | tokn :: rest =>
+    match tokn.splitOn ":" with
+    | [k, op] =>
+      match k.toNat? with
+      | none => none
+      | some k =>
+        if op == "c" then (famPRun sc (GraphExt.execFamP sc.geo F (.fam .create)).1 rest).map ("ok" :: ·)
+        else
+          match splitTok op ',' with
+          | ["x", a, c] =>
+            match a.toNat?, C06.cutW? rat? c with
+            | some a, some c =>
+              let r := GraphExt.execFamP sc.geo F (.fam (.extract k a c))
+              (famPRun sc r.1 rest).map (showFamPOut sc r.2 :: ·)
+            | _, _ => none
+          | ["W", i, w] =>
+            match i.toNat?, rat? w with
+            | some i, some w =>
+              let r := GraphExt.execFamP sc.geo F (.fam (.setWeight i w))
+              (famPRun sc r.1 rest).map (showFamPOut sc r.2 :: ·)
+            | _, _ => none
+          | ["P", a, b, c] =>
+            match a.toNat?, b.toNat?, C06.cutW? rat? c with
+            | some a, some b, some c =>
+              let r := GraphExt.execFamP sc.geo F (.path k a b c)
+              (famPRun sc r.1 rest).map (showFamPOut sc r.2 :: ·)
+            | _, _, _ => none
+          | _ =>
+            match C06.opW? rat? op with
+            | none => none
+            | some o =>
+              let r := GraphExt.execFamP sc.geo F (.fam (.on k o))
+              (famPRun sc r.1 rest).map (showFamPOut sc r.2 :: ·)
+    | _ => none
+
+def handleFam (args : List String) : String :=
+  match args with
+  | [n, es, pos, lines, af, ops] =>
+    match C06.netW? rat? n es, flag? af with
+    | some net, some af =>
+      match geometry? net af pos lines with
+      | some sc =>
+        match famPRun sc (Fam.new net.n) (splitTok ops ';') with
+        | some out => joinWith "|" out
+        | none => "bad-request"
+      | none => "bad-request"
+    | _, _ => "bad-request"
+  | _ => "bad-request"
+end fam
+
 /-- `paths` / `session`: weights, cut-offs and labels are rationals; `fpaths` / `fsession`: IEEE-754 bit patterns, the
 same model definitions instantiated at `Float` -/
 def handle (cmd : String) (args : List String) : String :=
-  if cmd == "asession" then handleA rat? showRat sqrtRat C06.okPosRat args
+  if cmd == "fampaths" then handleFam args
+  else if cmd == "asession" then handleA rat? showRat sqrtRat C06.okPosRat args
   else if cmd == "fasession" then handleA C06.fl? showFloat Float.sqrt C06.okPosFloat args
   else if cmd.startsWith "f" then handleW C06.fl? showFloat (cmd.drop 1).toString args
   else handleW rat? showRat cmd args
